@@ -590,6 +590,9 @@ func init() {
 	intercepts["(*sync.RWMutex).RLock"] = nop
 	intercepts["(*sync.RWMutex).RUnlock"] = nop
 	intercepts["(*sync.Pool).Put"] = nop
+	intercepts["(*sync.WaitGroup).Add"] = nop
+	intercepts["(*sync.WaitGroup).Done"] = nop
+	intercepts["(*sync.WaitGroup).Wait"] = nop
 	intercepts["(*sync.Pool).Get"] = func(e *Engine, fn *ssa.Function, a []Value) Value {
 		p := a[0].(Ptr)
 		sv := p.c.v.(*StructV)
